@@ -308,6 +308,28 @@ func (o *WireOracles) onSend(rec *DgramRec, data []byte) {
 						}
 					}
 				}
+			case "MAX_STREAM_DATA", "MAX_DATA":
+				// C04: a limit is raised by what the application has consumed plus the current window, and the window (auto-tuned
+				// or not) stays within the maximum the receiver's Config sets: no limit is further ahead of the data the peer has
+				// sent so far (a superset of what was consumed) than that maximum
+				if o.n == nil || p.Conn.Used0RTTMaybe() || (d == 0 && o.n.Cfg.Client != "" && o.n.Cfg.Client != "plain" && o.n.Cfg.Client != "unil") {
+					break
+				}
+				if f.Name == "MAX_DATA" {
+					if mw := o.n.Cfg.MaxWin[d*2+1]; mw > 0 && f.Max > a.connSent[1-d]+mw {
+						o.report("C04", "receiver advertised a connection limit further ahead of the data sent to it than its configured maximum connection window", "%s: limit %d, peer has sent %d, Config.MaxConnectionReceiveWindow %d", p.String(), f.Max, a.connSent[1-d], mw)
+					}
+					break
+				}
+				if mw := o.n.Cfg.MaxWin[d*2]; mw > 0 {
+					var sent uint64
+					if st := a.streams[1-d][f.StreamID]; st != nil {
+						sent = st.highest
+					}
+					if f.Max > sent+mw {
+						o.report("C04", "receiver advertised a stream limit further ahead of the data sent to it than its configured maximum stream window", "%s: stream %d limit %d, peer has sent %d, Config.MaxStreamReceiveWindow %d", p.String(), f.StreamID, f.Max, sent, mw)
+					}
+				}
 			case "ACK":
 				// C07: only packet numbers that were delivered (undamaged) to this endpoint in this space
 				set := a.delivered[1-d][sp]
